@@ -622,11 +622,8 @@ func genScenario(rnd *rand.Rand, ids []string, faults bool) Scenario {
 	}
 	uni := append(append([]string{}, sc.Cfg...), "unk")
 	mkEntry := func(f string) Entry {
-		e := Entry{F: f, Req: rnd.Intn(2) == 0}
-		if k, ok := pool[f]; ok && has(k.Mask, "Ready") {
-			e.Req = true
-		}
-		return e
+		// every feature is advertised as mandatory or as voluntary, also one whose step reports Ready
+		return Entry{F: f, Req: rnd.Intn(2) == 0}
 	}
 	for i := 0; i < 4; i++ {
 		var l []Entry
